@@ -36,7 +36,7 @@ var victims = []victim{
 	{Kind: "addition2", Inits: []string{"empty", "two"}, NoAuto: true},
 	{Kind: "addition3", Inits: []string{"one", "cancel"}, NoAuto: true},
 	{Kind: "addempty", Inits: []string{"one"}, NoAuto: true},
-	{Kind: "compactall", Inits: []string{"two", "three", "four", "cancel", "high2"}, NoAuto: true},
+	{Kind: "compactall", Inits: []string{"two", "three", "four", "cancel", "cancel2", "high2"}, NoAuto: true},
 	{Kind: "expiry", Inits: []string{"two", "four"}, NoAuto: true},
 	{Kind: "range", Inits: []string{"three", "four"}, NoAuto: true},
 	{Kind: "range01", Inits: []string{"cancel"}, NoAuto: true},
